@@ -115,6 +115,9 @@ type VC struct {
 	keyInt   map[string]types.Type
 	cutsHit  map[string]bool
 	guardDefs map[Term][]Term
+	freeCells map[string]adv
+	recoverNil bool
+	noInlineLimit int
 	axiomsDone bool
 	fpMode   bool
 	abstracted []string
@@ -449,6 +452,9 @@ func (vc *VC) epochBase(ep *Epoch, key string) Term {
 		if !vc.declared[n] {
 			vc.declared[n] = true
 			vc.emit(fmt.Sprintf("(declare-const %s %s)", n, ki.sort))
+			if key == "Z:n" {
+				vc.emit(fmt.Sprintf("(assert (>= %s 0))", n))
+			}
 			if i := strings.LastIndex(key, "#"); i >= 0 && (strings.HasSuffix(key, "#arr") || strings.HasSuffix(key, "#off") || strings.HasSuffix(key, "#len") || strings.HasSuffix(key, "#cap")) {
 				// slice header well-formedness for every slice stored in this base heap (joint axiom, once)
 				pre := key[:i]
@@ -901,6 +907,12 @@ type frame struct {
 	override map[ssa.Value]Sym
 	locals   map[*ssa.Alloc]adv
 	blocks   []*inlBlock
+	defers   []deferred
+}
+
+type deferred struct {
+	fn    *ssa.Function
+	binds []Sym
 }
 
 func (vc *VC) newFrame(fn *ssa.Function, depth int) *frame {
